@@ -20,3 +20,33 @@ Definition slice_to {A : Type} (l : list A) (i : Z) : list A := firstn (Z.to_nat
 Definition slice_from {A : Type} (l : list A) (i : Z) : list A := skipn (Z.to_nat i) l.
 (* len(s) for a string *)
 Definition slen (s : string) : Z := Z.of_nat (String.length s).
+
+(* ---- Go strings as byte lists (units translated with `bytestr`) ---- *)
+Local Open Scope Z_scope.
+(* a == b on strings *)
+Fixpoint bytes_eqb (a b : list Z) : bool :=
+  match a, b with
+  | [], [] => true
+  | x :: a', y :: b' => Z.eqb x y && bytes_eqb a' b'
+  | _, _ => false
+  end.
+(* strings.HasPrefix(s, p) *)
+Fixpoint bytes_has_prefix (s p : list Z) : bool :=
+  match p, s with
+  | [], _ => true
+  | a :: p', x :: s' => Z.eqb a x && bytes_has_prefix s' p'
+  | _ :: _, [] => false
+  end.
+(* strings.IndexByte(s, c): the first index of c in s, -1 if there is none *)
+Fixpoint bytes_index_byte (s : list Z) (c : Z) : Z :=
+  match s with
+  | [] => -1
+  | x :: r => if Z.eqb x c then 0 else let k := bytes_index_byte r c in if Z.ltb k 0 then -1 else k + 1
+  end.
+(* strings.Index(s, sub): the first index at which sub occurs in s, -1 if there is none *)
+Fixpoint bytes_index (s sub : list Z) : Z :=
+  if bytes_has_prefix s sub then 0
+  else match s with
+       | [] => -1
+       | _ :: r => let k := bytes_index r sub in if Z.ltb k 0 then -1 else k + 1
+       end.
